@@ -139,7 +139,7 @@ def exit_rewrite(block: list[ast.stmt], on_return) -> tuple[list[ast.stmt], bool
             st.body, st.orelse = b or [_pass(st)], o
             out.append(st)
             continue
-        if isinstance(st, (ast.For, ast.AsyncFor)) and _has_return([st]):
+        if isinstance(st, (ast.For, ast.AsyncFor, ast.While)) and _has_return([st]):
             if _has_return(st.orelse) and _has_return(st.body):
                 raise Unsupported("returns in loop body and loop else")
             if not _has_return(st.body):
@@ -228,8 +228,14 @@ class DeepInliner(Inliner):
         if not body:
             return False
         for n in _walk_own(callee.node.body):
-            if isinstance(n, (ast.Yield, ast.YieldFrom, ast.Await, ast.Global, ast.Nonlocal, ast.FunctionDef, ast.AsyncFunctionDef, ast.ClassDef)):
+            if isinstance(n, (ast.Yield, ast.YieldFrom, ast.Await, ast.Global, ast.Nonlocal, ast.AsyncFunctionDef, ast.ClassDef)):
                 return False
+            if isinstance(n, ast.FunctionDef):
+                # local closures are copied into the view and inlined from there; they must be plain functions
+                if n.decorator_list or any(isinstance(x, (ast.Yield, ast.YieldFrom, ast.Await, ast.Global, ast.Nonlocal, ast.ClassDef)) for x in ast.walk(n)):
+                    return False
+                if any(isinstance(x, ast.FunctionDef) and x is not n for x in ast.walk(n)):
+                    return False
         if form in ("expr", "assign"):
             try:
                 exit_rewrite(_recopy(body), lambda r: [])
@@ -238,6 +244,30 @@ class DeepInliner(Inliner):
         if self.allow is not None and not self.allow(caller, callee):
             return False
         return True
+
+    # ------------------------------------------------------------------ local closures
+    def _try(self, ctx: FuncInfo, call: ast.AST, form: str, taken: set[str], origin: dict, stack: tuple[str, ...]):
+        if isinstance(call, ast.Call) and isinstance(call.func, ast.Name) and len(stack) <= self.max_depth:
+            callee = self._resolve(ctx, call)
+            local = getattr(self, "local_defs", {}).get(call.func.id)
+            if callee is not None and callee.outer is not None and not isinstance(callee.node, ast.Lambda) and local is not None and callee.name == local.name:
+                key = f"{callee.fq}@view"
+                if key in stack:
+                    return None
+                syn = FuncInfo(name=callee.name, qualname=callee.qualname, node=local, module=callee.module, cls=None, decorators=[], outer=callee.outer)
+                if not self._eligible(ctx, syn, form):
+                    return None
+                got = self._expand(ctx, call, syn, taken, origin, stack + (key,))
+                if got is None:
+                    return None
+                prefix, body = got
+                for st in body:
+                    for n in ast.walk(st):
+                        src = getattr(n, "_src", None)
+                        if src is not None and src[0] is syn and hasattr(src[1], "_src"):
+                            n._src = src[1]._src  # type: ignore[attr-defined]  # keep pointing at the real source
+                return prefix, body
+        return super()._try(ctx, call, form, taken, origin, stack)
 
     # ------------------------------------------------------------------ helpers
     def _fresh_tmp(self, base: str, taken: set[str]) -> str:
@@ -313,6 +343,9 @@ class DeepInliner(Inliner):
         val = _as_dictcomp(val)
         if not isinstance(val, ast.DictComp):
             return None
+        it0 = val.generators[0].iter
+        if isinstance(it0, ast.Call) and isinstance(it0.func, ast.Attribute) and it0.func.attr == "items" and isinstance(it0.func.value, ast.Name) and it0.func.value.id == getattr(self, "kwname", None):
+            return None  # a filtered copy of the options dict: read as such by the model
         # comprehension variables become function-level loop variables: rename on clashes
         ren: dict[str, str] = {}
         for g in val.generators:
@@ -354,6 +387,10 @@ class DeepInliner(Inliner):
         queue = list(stmts)
         while queue:
             s = queue.pop(0)
+            if isinstance(s, ast.FunctionDef):
+                self.__dict__.setdefault("local_defs", {})[s.name] = s
+                out.append(s)
+                continue
             hoisted = self._hoist(ctx, s, taken, stack)
             if len(hoisted) > 1:
                 queue = hoisted + queue
@@ -668,6 +705,7 @@ def deep_view(repo: Repo, fi: FuncInfo, types: Types, allow=None) -> FuncInfo:
     if key in cache:
         return cache[key]
     inl = DeepInliner(repo, types, allow)
+    inl.kwname = fi.node.args.kwarg.arg if fi.node.args.kwarg is not None else None
     origin: dict = {}
     node = _copy(fi.node, fi, origin)
     taken = _names_in(fi.node)
